@@ -210,7 +210,7 @@ impl Prop for C02 {
         if stage == 0 {
             let progs = programs(tier);
             for i in a..b {
-            out.idx = Some(i);
+            out.at(i);
                 let t = &progs[i as usize];
                 let text = parse::print(t, &ops, Parens::Minimal);
                 // the model must agree with itself before it is used as an oracle
@@ -238,7 +238,7 @@ impl Prop for C02 {
         if stage == 2 {
             let hs = super::c12::rereg_histories();
             for i in a..b {
-                out.idx = Some(i);
+                out.at(i);
                 let (h, xthread) = (&hs[i as usize % hs.len()], i as usize >= hs.len());
                 run_rereg(h, xthread, out);
                 out.count("states", h.len() as u64);
@@ -248,7 +248,7 @@ impl Prop for C02 {
         }
         let s = seqs(tier);
         for i in a..b {
-            out.idx = Some(i);
+            out.at(i);
             for text in [s.spaced(i), s.glued(i)] {
                 if let Ok(want) = parse::parse(&text, &ops) {
                     compare(&text, &want, &ops, "tokens", out);
